@@ -2,6 +2,7 @@
 import ast
 
 from ..core import astutil as A
+from ..core import match as M
 from ..core.cfg import cfg_of
 from ..core.dtable import IMPLICIT_NONE, boolean_node_table
 from ..core.model import ClassInfo, dotted
@@ -99,7 +100,7 @@ def run(ctx):
     # Negate / AlwaysBool / PackageRestriction
     NG = P.cls("pkgcore.restrictions.restriction", "Negate")
     r = A.returns(NG.methods["match"].node)
-    ok = len(r) == 1 and isinstance(r[0].value, ast.UnaryOp) and isinstance(r[0].value.op, ast.Not) and "self._restrict.match(" in A.unparse(r[0].value)
+    ok = len(r) == 1 and M.pat("return not self._restrict.match(...)").matches(r[0]) is not None
     ctx.check("R1", NG.methods["match"], ok, "table:Negate", "Negate.match is `not inner.match(...)`")
     AB = P.cls("pkgcore.restrictions.restriction", "AlwaysBool")
     for name, want in (("match", "self.negate"), ("force_True", "self.negate"), ("force_False", "not self.negate")):
@@ -108,7 +109,9 @@ def run(ctx):
     PR = P.cls("pkgcore.restrictions.packages", "PackageRestriction")
     pm = PR.methods["match"]
     rets = [A.unparse(x.value) for x in A.returns(pm.node)]
-    ctx.check("R1", pm, rets == ["self.negate", "self.restriction.match(attr) != self.negate"], "table:PackageRestriction",
+    # the pulled attribute is bound by its role (result of self._pull_attr(pkg)), not by its spelling
+    shape = M.one(pm.node.body, "$attr = self._pull_attr(pkg)\nif $attr is klass.sentinel:\n    return self.negate\nreturn self.restriction.match($attr) != self.negate")
+    ctx.check("R1", pm, shape is not None and len(rets) == 2, "table:PackageRestriction",
               "PackageRestriction.match: missing attribute -> negate; otherwise inner match xor negate", f"PackageRestriction.match returns {rets}")
     ctx.floor("R1", 10)
 
@@ -202,7 +205,8 @@ def run(ctx):
         lp, st = dist[0]
         elt = A.unparse(st.value.elt)
         names = [g.target.id for g in st.value.generators if isinstance(g.target, ast.Name)]
-        ctx.check("R4", oc, all(n in elt for n in names) and "+" in elt, "cnf-clause-extension", "each new clause is an old clause extended by one literal of the alternative", node=st)
+        used = {x.id for x in ast.walk(st.value.elt) if isinstance(x, ast.Name)}
+        ctx.check("R4", oc, len(names) == 2 and all(n in used for n in names) and isinstance(st.value.elt, ast.BinOp) and isinstance(st.value.elt.op, ast.Add), "cnf-clause-extension", "each new clause is an old clause extended by one literal of the alternative", node=st)
     rets = A.returns(oc.node)
     ctx.check("R4", oc, any(A.unparse(r.value) == "[]" for r in rets), "cnf-empty-or", "an any-of without children has no clauses listed (handled before distribution)")
 
